@@ -117,9 +117,54 @@ class Paths:
                 return self.of(e.args[0])
             cal = self.sc.callee(e)
             if cal.kind == "pkg" and cal.targets:
-                return f"<ret:{cal.targets[0].name}>"
+                t = cal.targets[0]
+                known = self.an.known_funcs
+                if known is not None and t.qual not in known and len(cal.targets) == 1 and t.qual not in self._busy:
+                    # a helper outside the frozen table: what it returns, when every return yields the same self-rooted path
+                    self._busy.add(t.qual)
+                    try:
+                        sub = Paths(self.an, t)
+                        rets = {sub.of(r.value) for r in sub.sc._own_nodes() if isinstance(r, ast.Return) and r.value is not None}
+                    finally:
+                        self._busy.discard(t.qual)
+                    recv_self = isinstance(e.func, ast.Attribute) and isinstance(e.func.value, ast.Name) and e.func.value.id == self.sc.selfname
+                    if len(rets) == 1 and None not in rets and recv_self:
+                        p = next(iter(rets))
+                        if p == "self" or p.startswith("self.") :
+                            return p
+                return f"<ret:{t.name}>"
             return None
         return None
+
+    def is_copy(self, e: Optional[ast.AST], _depth: int = 0) -> bool:
+        """e denotes a container created here as a copy / fresh display (mutating it does not touch what it was copied from)."""
+        if e is None or _depth > 4:
+            return False
+        if isinstance(e, (ast.Dict, ast.Set, ast.List, ast.Tuple, ast.DictComp, ast.SetComp, ast.ListComp, ast.GeneratorExp)):
+            return True
+        if isinstance(e, ast.Call):
+            fn = e.func
+            if isinstance(fn, ast.Name) and fn.id in ("dict", "list", "set", "tuple", "sorted", "frozenset", "reversed", "OrderedDict"):
+                return True
+            if isinstance(fn, ast.Attribute) and fn.attr in ("copy", "union", "difference", "intersection", "keys", "values", "items"):
+                return True
+            return False
+        if isinstance(e, ast.BinOp) and isinstance(e.op, (ast.BitOr, ast.BitAnd, ast.Sub, ast.Add)):
+            return True
+        if isinstance(e, ast.Name):
+            sc = self.sc
+            if e.id in sc.params or e.id not in sc.defs:
+                return False
+            vals = []
+            for h in sc.defs[e.id]:
+                if h[0] == "assign":
+                    vals.append(h[1])
+                elif h[0] == "ann":
+                    vals.append(h[2])
+                else:
+                    return False
+            return bool(vals) and all(self.is_copy(v, _depth + 1) for v in vals)
+        return False
 
     def _name(self, name: str) -> Optional[str]:
         sc = self.sc
@@ -159,6 +204,31 @@ class Paths:
                 self._busy.discard(name)
             if len(paths) == 1 and None not in paths:
                 return paths.pop()
+            if paths == {None} or paths == {name}:
+                # a fresh object that this function files in a container: from then on it is an element of that container
+                homes = set()
+                for x in sc._own_nodes():
+                    if isinstance(x, (ast.Assign, ast.AnnAssign)) and isinstance(x.value, ast.Name) and x.value.id == name:
+                        for t in (x.targets if isinstance(x, ast.Assign) else [x.target]):
+                            if isinstance(t, ast.Subscript):
+                                self._busy.add(name)
+                                try:
+                                    b = self.of(t.value)
+                                finally:
+                                    self._busy.discard(name)
+                                if b is not None:
+                                    homes.add(b + "[]")
+                            elif isinstance(t, ast.Attribute):
+                                # `obj = Ctor(); self._field = obj`: from then on the local is that field
+                                self._busy.add(name)
+                                try:
+                                    b = self.of(t)
+                                finally:
+                                    self._busy.discard(name)
+                                if b is not None:
+                                    homes.add(b)
+                if len(homes) == 1:
+                    return homes.pop()
             return name
         if self.f.parent is not None:
             # closure variable: a parameter or local of the enclosing function
@@ -181,6 +251,35 @@ class Effects:
         return p
 
     def of_node(self, n: Node) -> List[Effect]:
+        out = self._of_node(n)
+        if n.env:
+            for e in out:
+                e.path = self.rebase(e.path, n.func, n.env)
+        return out
+
+    def rebase(self, path: str, f: FuncInfo, env) -> str:
+        """Rewrite a path rooted in a parameter of a spliced helper into the caller's terms."""
+        if not env or path is None:
+            return path
+        import re
+
+        m = re.match(r"<(\w+)>", path)
+        root, rest = None, None
+        if m and m.group(1) in env:
+            root, rest = m.group(1), path[m.end():]
+        else:
+            sn = self.an.scope(f).selfname
+            if sn is not None and sn in env and (path == "self" or path.startswith("self.") or path.startswith("self[")):
+                root, rest = sn, path[4:]
+        if root is None:
+            return path
+        caller, arg, cenv = env[root]
+        base = self.paths(caller).of(arg)
+        if base is None:
+            return path
+        return self.rebase(base, caller, cenv) + rest
+
+    def _of_node(self, n: Node) -> List[Effect]:
         f = n.func
         P = self.paths(f)
         sc = self.an.scope(f)
@@ -193,6 +292,8 @@ class Effects:
                 path = P.of(fn.value)
                 if ck is not None:
                     kind = _METHOD_EFFECT.get((ck, fn.attr))
+                    if kind in ("insert", "remove", "clear", "reorder") and ck in ("dict", "set", "list") and P.is_copy(fn.value):
+                        kind = None  # edits a private copy, not the container it was copied from
                     if kind is not None and path is not None:
                         out.append(Effect(n, path, kind, ck, fn.attr))
                 elif ck is None and (rt is None or rt.head in ("Any", "UserValue", "object")) and n.callee.kind in ("unknown", "ext"):
@@ -217,14 +318,14 @@ class Effects:
                 elif isinstance(t, ast.Subscript):
                     p = P.of(t.value)
                     ck = container_kind(self.an, sc.ty(t.value)) or "?"
-                    if p is not None:
+                    if p is not None and not P.is_copy(t.value):
                         out.append(Effect(n, p, "insert", ck, "__setitem__"))
         elif n.op == "del":
             for t in n.ast.targets:
                 if isinstance(t, ast.Subscript):
                     p = P.of(t.value)
                     ck = container_kind(self.an, sc.ty(t.value)) or "?"
-                    if p is not None:
+                    if p is not None and not P.is_copy(t.value):
                         out.append(Effect(n, p, "remove", ck, "__delitem__"))
                 elif isinstance(t, ast.Attribute):
                     p = P.of(t)
